@@ -3,6 +3,7 @@
 package merkleroot
 
 import (
+	"encoding/hex"
 	"fmt"
 	"sort"
 	"testing"
@@ -96,17 +97,76 @@ func vC01RmnBreak(r *vRand, c rmntypes.RemoteConfig) (rmntypes.RemoteConfig, str
 
 type vC01Printer struct{ in *vIntern }
 
-func (p vC01Printer) bytesID(b fmt.Stringer) string { return cN(p.in.Id(fmt.Sprintf("%v", b))) }
+// Value identity used for interning is a hand-written canonical encoding of the exported fields (raw bytes in hex,
+// numbers in decimal). It must NOT go through any String()/"%v" of the code under test: whether the implementation's
+// own vote identity (sha3 of the "%v" rendering) distinguishes exactly the values that differ is part of what is checked.
+// nil and empty byte strings have the same content and are one value.
+func (p vC01Printer) bytesID(b []byte) string { return cN(p.in.Id("b:" + hex.EncodeToString(b))) }
 func (p vC01Printer) root(m cciptypes.MerkleRootChain) string {
 	return cTup(cN(uint64(m.ChainSel)), p.bytesID(m.OnRampAddress),
-		cPair(cN(uint64(m.SeqNumsRange.Start())), cN(uint64(m.SeqNumsRange.End()))), p.bytesID(m.MerkleRoot))
+		cPair(cN(uint64(m.SeqNumsRange.Start())), cN(uint64(m.SeqNumsRange.End()))), p.bytesID(m.MerkleRoot[:]))
 }
 func (p vC01Printer) seq(s plugintypes.SeqNumChain) string {
 	return cPair(cN(uint64(s.ChainSel)), cN(uint64(s.SeqNum)))
 }
 func (p vC01Printer) rmnID(c rmntypes.RemoteConfig) string {
-	return cN(p.in.Id("rmn:" + fmt.Sprintf("%v", c)))
+	k := "rmn|" + hex.EncodeToString(c.ContractAddress) + "|" + hex.EncodeToString(c.ConfigDigest[:]) + "|"
+	for _, sg := range c.Signers {
+		k += hex.EncodeToString(sg.OnchainPublicKey) + ":" + fmt.Sprint(sg.NodeIndex) + ","
+	}
+	k += "|" + fmt.Sprint(c.F) + "|" + fmt.Sprint(c.ConfigVersion) + "|" + hex.EncodeToString(c.RmnReportVersion[:])
+	return cN(p.in.Id(k))
 }
+
+// a well-formed config that differs from c in exactly one field
+func vC01RmnOneField(r *vRand, c rmntypes.RemoteConfig) (rmntypes.RemoteConfig, string) {
+	sg := make([]rmntypes.RemoteSignerInfo, len(c.Signers))
+	copy(sg, c.Signers)
+	c.Signers = sg
+	switch r.Intn(8) {
+	case 0:
+		c.Signers[0].OnchainPublicKey = cciptypes.UnknownAddress{0xF0, 1}
+		return c, "key0"
+	case 1:
+		c.Signers[len(sg)-1].OnchainPublicKey = cciptypes.UnknownAddress{0xF0, 2}
+		return c, "keyN"
+	case 2:
+		c.Signers[len(sg)-1].NodeIndex = 7
+		return c, "index"
+	case 3:
+		c.F = 0
+		return c, "F"
+	case 4:
+		c.ConfigDigest[31] ^= 1
+		return c, "digest"
+	case 5:
+		c.ConfigVersion++
+		return c, "version"
+	case 6:
+		c.ContractAddress = append(cciptypes.UnknownAddress{}, c.ContractAddress...)
+		c.ContractAddress[len(c.ContractAddress)-1] ^= 1
+		return c, "address"
+	default:
+		c.RmnReportVersion[0] ^= 1
+		return c, "reportversion"
+	}
+}
+
+// rearranges order so that the first holder of the competing value B (position ta) is the reader with the lowest
+// (mode 1) or the highest (mode 2) oracle id
+func vC01OddFirst(order []int, ids []commontypes.OracleID, ta, mode int) {
+	if ta >= len(order) || mode == 0 {
+		return
+	}
+	best := 0
+	for k := range order {
+		if (mode == 1 && ids[order[k]] < ids[order[best]]) || (mode == 2 && ids[order[k]] > ids[order[best]]) {
+			best = k
+		}
+	}
+	order[ta], order[best] = order[best], order[ta]
+}
+
 func (p vC01Printer) rmn(c rmntypes.RemoteConfig) string {
 	return cApp("mkRmn", p.rmnID(c), cBool(len(c.ContractAddress) == 0), cBool(c.ConfigDigest == cciptypes.Bytes32{}),
 		cMap(c.Signers, func(s rmntypes.RemoteSignerInfo) string {
@@ -284,8 +344,9 @@ func TestVerif_C01_mr(t *testing.T) {
 				order := pickFrom(c, field == 2)
 				ta := vC01Target(r, thr, len(order))
 				tb := 0
-				if r.Chance(1, 3) {
-					tb = vC01Target(r, thr, len(order))
+				if r.Chance(1, 2) {
+					tb = vPick(r, []int{1, 1, vC01Target(r, thr, len(order))})
+					vC01OddFirst(order, ids, ta, r.Intn(3))
 				}
 				// which component differs between value A and value B of a root
 				comp := r.Intn(4)
@@ -330,19 +391,29 @@ func TestVerif_C01_mr(t *testing.T) {
 			}
 		}
 		// RMN remote config from destination readers
+		rmnCls := ""
 		{
 			order := pickFrom(chains[0], true)
 			thr := 2*chains[0].f + 1
 			ta := vC01Target(r, thr, len(order))
 			tb := 0
-			if r.Chance(1, 3) {
-				tb = vC01Target(r, thr, len(order))
+			cfgA := vC01Rmn(r, 1)
+			cfgB := vC01Rmn(r, 2)
+			if r.Chance(2, 3) {
+				tb = vPick(r, []int{1, 1, 2, vC01Target(r, thr, len(order))})
+				if r.Chance(3, 4) { // B differs from A in exactly one field
+					var l string
+					cfgB, l = vC01RmnOneField(r, cfgA)
+					rmnCls = "+rmn1:" + l
+				}
+				// with observations in ascending oracle id order the lowest id is added to the vote count first
+				vC01OddFirst(order, ids, ta, r.Intn(3))
 			}
 			for j, oi := range order {
 				if j < ta {
-					obs[oi].RMNRemoteConfig = vC01Rmn(r, 1)
+					obs[oi].RMNRemoteConfig = cfgA
 				} else if j < ta+tb {
-					obs[oi].RMNRemoteConfig = vC01Rmn(r, 2)
+					obs[oi].RMNRemoteConfig = cfgB
 				}
 			}
 		}
@@ -437,6 +508,9 @@ func TestVerif_C01_mr(t *testing.T) {
 
 		// run the implementation
 		order := r.Perm(nOr)
+		if r.Chance(1, 2) {
+			sort.Slice(order, func(a, b int) bool { return ids[order[a]] < ids[order[b]] })
+		}
 		aos := make([]plugincommon.AttributedObservation[Observation], nOr)
 		for k, oi := range order {
 			aos[k] = plugincommon.AttributedObservation[Observation]{OracleID: ids[oi], Observation: obs[oi]}
@@ -483,8 +557,9 @@ func TestVerif_C01_mr(t *testing.T) {
 		if byzCls != "" {
 			full = cls + "/byz"
 		}
+		_ = rmnCls
 		sink.Emit("C01_mr", full+vC01ResCls(res, nRej), res != "Err" && len(accepted) >= 3, cPair(input, out),
-			map[string]any{"F": F, "dest": dest, "n": nOr, "byz": byzCls, "rejected": nRej, "aos": aos, "result": res})
+			map[string]any{"F": F, "dest": dest, "n": nOr, "byz": byzCls, "rmn": rmnCls, "rejected": nRej, "aos": aos, "result": res})
 	}
 }
 
